@@ -27,7 +27,7 @@ func init() {
 		Run:            run,
 		MinEvaluations: map[string]int{"quick": 100000, "thorough": 1000000},
 		MinNontrivial:  map[string]int{"quick": 1000, "thorough": 10000},
-		RequiredObs:    []string{"finds_that_compressed_paths", "ops:Union", "ops:UnionBuffered", "ops:Find", "ops:FindBuffered", "ops:view_on_the_live_value", "binomial_trees_under_every_labelling", "views_checked"},
+		RequiredObs:    []string{"finds_that_compressed_paths", "ops:Union", "ops:UnionBuffered", "ops:Find", "ops:FindBuffered", "ops:view_on_the_live_value", "binomial_trees_under_every_labelling", "views_checked", "one_array:ops_followed_by_a_read_of_both_sets"},
 	})
 }
 
@@ -566,4 +566,7 @@ func run(c *engine.Ctx) {
 			}
 		})
 	}
+
+	// 4. several Sets side by side in one array (prefix views, the library's own idiom)
+	runArenas(c)
 }
